@@ -46,6 +46,9 @@ pub struct Config {
     pub start_ns: i64,
     /// periodic cleanup: (interval, phase) in ns; None = ticks only where generated
     pub tick: Option<(i64, i64)>,
+    /// call order of the builder's setters (see sut.rs)
+    #[serde(default)]
+    pub order: u8,
 }
 
 #[derive(Clone, Debug, PartialEq, Eq, Serialize, Deserialize, Hash)]
@@ -307,6 +310,10 @@ pub struct Interp<'a> {
     rewritten_after_loss: BTreeSet<u64>,
     lost_once: BTreeSet<u64>,
     lookups_since_clear: u64,
+    /// a lookup ran concurrently with a clear(): on which side of the counter reset it fell is not known
+    lookups_uncertain: bool,
+    interposed_then_clear: bool,
+    interposed_then_lookup: bool,
     all_deadlines: Vec<i64>,
     interposed_serial_base: u32,
     in_interposed_op: bool,
@@ -350,6 +357,7 @@ impl<'a> Interp<'a> {
             metrics: cfg.metrics,
             validator: cfg.validator,
             keys: cfg.keys.clone(),
+            order: cfg.order,
         };
         let sut: std::rc::Rc<dyn Sut> = match cfg.flavour {
             Flavour::Sync => std::rc::Rc::new(SyncSut::build(&b).map_err(|e| e.to_string())?),
@@ -406,6 +414,9 @@ impl<'a> Interp<'a> {
             rewritten_after_loss: BTreeSet::new(),
             lost_once: BTreeSet::new(),
             lookups_since_clear: 0,
+            lookups_uncertain: false,
+            interposed_then_clear: false,
+            interposed_then_lookup: false,
             all_deadlines: Vec::new(),
             interposed_serial_base: 0,
             in_interposed_op: false,
@@ -481,6 +492,12 @@ impl<'a> Interp<'a> {
     /// their lookups returned
     fn absorb_nested(&mut self) {
         let obs: Vec<NObs> = std::mem::take(&mut *self.nested.borrow_mut());
+        // a lookup concurrent with a clear(): the side of the counter reset it fell on is unknown
+        let has_clear = self.interposed_then_clear || obs.iter().any(|o| matches!(o, NObs::Cleared(_)));
+        let has_lookup = self.interposed_then_lookup || obs.iter().any(|o| matches!(o, NObs::Get { .. }));
+        if !obs.is_empty() && has_clear && has_lookup {
+            self.lookups_uncertain = true;
+        }
         for o in obs {
             match o {
                 NObs::Ins { k, v, ttl, r } => {
@@ -807,7 +824,7 @@ impl<'a> Interp<'a> {
                     );
                 }
             }
-            if mv.hits + mv.misses != self.lookups_since_clear {
+            if !self.lookups_uncertain && mv.hits + mv.misses != self.lookups_since_clear {
                 self.fail(
                     "metrics_lookups",
                     P_C17,
@@ -947,6 +964,19 @@ impl<'a> Interp<'a> {
         // queues
         let (pi, _pc, pp) = self.sut.pending();
         if pi != self.m.pending.len() {
+            // while the model mirrors the implementation it knows exactly which items the client
+            // operations have queued: a missing one will never be applied
+            let props: &'static [&'static str] = if pi < self.m.pending.len() {
+                match self.m.pending.back() {
+                    Some(MItem::Update { .. }) => &["C16", "C19"],
+                    Some(MItem::New { .. }) => &["C04", "C10", "C19"],
+                    Some(MItem::Delete { .. }) => &["C06", "C02", "C19"],
+                    _ => &["C10", "C19"],
+                }
+            } else {
+                &["C19"]
+            };
+            self.fail("item_not_queued", props, format!("{}: {} items buffered, {} expected (last expected item: {:?})", what, pi, self.m.pending.len(), self.m.pending.back().map(|i| format!("{:?}", i).chars().take(60).collect::<String>())));
             self.desync("insert buffer length differs from model");
             return;
         }
@@ -1878,6 +1908,9 @@ impl<'a> Interp<'a> {
         // clear() zeroes the counters (policy admit filter, metrics)
         self.m.m = MMetrics::default();
         self.lookups_since_clear = 0;
+        if !self.in_interposed_op {
+            self.lookups_uncertain = false;
+        }
         let (pi, _, _) = self.sut.pending();
         if pi == 0 {
             // nothing buffered: if clear() left only its signal queued, the processor consuming
@@ -1903,7 +1936,9 @@ impl<'a> Interp<'a> {
         if !self.m.pending.is_empty() {
             self.feats.waits_with_pending += 1;
         }
-        let full = self.m.pending.len() >= self.cfg.buffer_size;
+        // "the buffer is full" is the precondition under which wait() may fail: read off the model
+        // while it mirrors the implementation, off the real buffer once it does not
+        let full = if self.m.synced { self.m.pending.len() >= self.cfg.buffer_size } else { self.sut.pending().0 >= self.sut.buffer_cap() };
         let (r, steps) = self.sut.wait();
         let n = steps.len();
         self.tr(|| format!("wait() = {:?} after {} processor steps", r, n));
@@ -2230,11 +2265,15 @@ impl<'a> Interp<'a> {
         // run the outer op through the ordinary path (desynced: history oracles only)
         let then = then.clone();
         self.in_interposed_op = true;
+        self.interposed_then_clear = matches!(then, Op::Clear { .. });
+        self.interposed_then_lookup = matches!(then, Op::Get { .. } | Op::GetMut { .. } | Op::GetHold { .. } | Op::GetTtl { .. });
         self.exec_inner(&then);
         self.in_interposed_op = false;
         stretto::verif::set_thread_yield_hook(None);
         stretto::verif::set_thread_yield_hook2(None);
         self.absorb_nested();
+        self.interposed_then_clear = false;
+        self.interposed_then_lookup = false;
         let log = self.sut.take_log();
         self.note_events(&log);
         self.check_invariants("after interposed step");
